@@ -6,6 +6,8 @@ CONSTANTS Variant = "lastid"
  MCVs = {1}
  PolyMode = "one"
  MaxRedel = 1
+ MaxFault = 0
+ FaultNodes = {1, 2, 3}
  OrderMode = "free"
 INVARIANTS Agreement
 CHECK_DEADLOCK FALSE
